@@ -5,3 +5,5 @@ import "pgregory.net/rapid"
 func g2(g func(*rapid.T) BasmCase, seed int) BasmCase {
 	return rapid.Custom(g).Example(seed)
 }
+
+func rapidExampleNB(g func(*rapid.T) NBCase, seed int) NBCase { return rapid.Custom(g).Example(seed) }
